@@ -4,6 +4,7 @@ package main
 // maps.
 
 import (
+	"os"
 	"fmt"
 	"go/token"
 	"go/types"
@@ -146,7 +147,7 @@ func (fr *Frame) callUnknownFunc(fv Val, args []Val, st *State, pos token.Pos, s
 	fx.oblige("nil", fr.path+"/nil/funcvalue#", st, not(eq(fv.ts[0], "0")), pos, "")
 	fx.noteAssumption("callbacks invoked through function values are pure, deterministic and return normally")
 	if sp := fr.spec; sp != nil && (len(sp.CbRequires) > 0 || len(sp.CbModifies) > 0 || len(sp.CbEnsures) > 0) {
-		defer fr.callbackEffects(sp, st, pos)()
+		defer fr.callbackEffects(sp, st, pos, args)()
 	}
 	res := sig.Results()
 	if res.Len() == 0 {
@@ -182,10 +183,15 @@ func (fr *Frame) callUnknownFunc(fv Val, args []Val, st *State, pos token.Pos, s
 // (e.g. "the lock is released") and returns a function that, after the call,
 // forgets the state the callback may have changed through re-entrant calls
 // and assumes what the contract guarantees about it.
-func (fr *Frame) callbackEffects(sp *FuncSpec, st *State, pos token.Pos) func() {
+func (fr *Frame) callbackEffects(sp *FuncSpec, st *State, pos token.Pos, args []Val) func() {
 	fx := fr.fx
+	// the arguments handed to the callback are visible as cbarg0, cbarg1, ...
+	extra := map[string]CV{}
+	for i, a := range args {
+		extra[fmt.Sprintf("cbarg%d", i)] = cvOf(a)
+	}
 	for i, r := range sp.CbRequires {
-		t := fr.evalClause(r, st, nil, nil)
+		t := fr.evalClause(r, st, nil, extra)
 		fx.oblige("requires", fmt.Sprintf("%s/callback/requires/%s#", fr.path, clauseName(r, i)), st, t, pos, r.Src)
 	}
 	return func() {
@@ -570,10 +576,33 @@ func (fr *Frame) havocLocation(env *Env, loc string, st *State, who string) {
 				fx.heapSorts["ML|"+sh.key] = arrSort(sInt)
 				return
 			}
+			if sh.kind == KSlice {
+				// allof("[]T"): the elements of every slice of that type
+				sh = &Shape{kind: KArr, elem: sh.elem, n: -1, key: "[?]" + sh.elem.key}
+			}
 			for c := 0; c < sh.ncomp(); c++ {
 				st.heaps[heapName(sh, c)] = fx.decls.Fresh("hv", heapSort(sh, c))
 				fx.heapSorts[heapName(sh, c)] = heapSort(sh, c)
 			}
+			return
+		}
+		if x.Fn == "mapof" {
+			// the contents of one map
+			cv := env.eval(x.Args[0])
+			if cv.k != cvVal || cv.v.sh.kind != KMap {
+				unsupp("modifies %s: not a map", loc)
+			}
+			fx := fr.fx
+			has, val, hasSort, valSorts, _ := mapHeaps(cv.v.sh)
+			upd := func(h, inner string) {
+				cur := fx.heapTerm(st, h, arrSort(inner))
+				st.heaps[h] = fx.define("hm", arrSort(inner), fmt.Sprintf("(store %s %s %s)", cur, cv.v.ts[0], fx.decls.Fresh("mv", inner)))
+			}
+			upd(has[0], hasSort)
+			for c := range val {
+				upd(val[c], valSorts[c])
+			}
+			upd("ML|"+cv.v.sh.key, sInt)
 			return
 		}
 		if x.Fn == "backing" {
@@ -1013,6 +1042,12 @@ func (fr *Frame) doAppend(s, t Val, st *State, pos token.Pos) Val {
 		// contents of the result window
 		fx.assume(st.guard, fmt.Sprintf("(forall ((i Int)) (! (=> (and (<= 0 i) (< i %s)) (= (select %s (+ %s i)) (select %s (+ %s i)))) :pattern ((select %s (+ %s i))) :pattern ((select %s (+ %s i)))))",
 			s.slLen(), na, off, oldArr, s.slOff(), na, off, oldArr, s.slOff()))
+		// the same fact over absolute positions of the old and of the new
+		// array (terms that solvers normalise away from the "+ off i" shape)
+		fx.assume(st.guard, fmt.Sprintf("(forall ((j Int)) (! (=> (and (<= %s j) (< j (+ %s %s))) (= (select %s (+ %s (- j %s))) (select %s j))) :pattern ((select %s j))))",
+			s.slOff(), s.slOff(), s.slLen(), na, off, s.slOff(), oldArr, oldArr))
+		fx.assume(st.guard, fmt.Sprintf("(forall ((j Int)) (! (=> (and (<= %s j) (< j (+ %s %s))) (= (select %s j) (select %s (+ %s (- j %s))))) :pattern ((select %s j))))",
+			off, off, s.slLen(), na, oldArr, s.slOff(), off, na))
 		if n, ok := isNumLit(tn); ok && n <= 8 {
 			for i := int64(0); i < n; i++ {
 				fx.assume(st.guard, eq(sel(na, add(off, add(s.slLen(), num(i)))), tget(c, num(i))))
@@ -1340,7 +1375,19 @@ func (fx *FnCtx) keyTerm(k Val) T {
 	if k.sh.kind == KStr {
 		fx.decls.Raw("(declare-fun |str.id| ((Array Int Int) Int Int) Int)")
 		fx.decls.Raw(streqDef)
-		fx.decls.Raw(`(assert (forall ((a (Array Int Int)) (ao Int) (al Int) (b (Array Int Int)) (bo Int) (bl Int)) (! (= (= (|str.id| a ao al) (|str.id| b bo bl)) (str.eq a ao al b bo bl)) :pattern ((|str.id| a ao al) (|str.id| b bo bl)))))`)
+		if os.Getenv("GOVC_STRID_QUADRATIC") != "" {
+			fx.decls.Raw(`(assert (forall ((a (Array Int Int)) (ao Int) (al Int) (b (Array Int Int)) (bo Int) (bl Int)) (! (= (= (|str.id| a ao al) (|str.id| b bo bl)) (str.eq a ao al b bo bl)) :pattern ((|str.id| a ao al) (|str.id| b bo bl)))))`)
+		} else {
+			// a content id determines the length and every byte (instantiated
+			// per id term and per read of its array, not per pair of ids) ...
+			fx.decls.Raw("(declare-fun |str.idlen| (Int) Int)")
+			fx.decls.Raw("(declare-fun |str.idat| (Int Int) Int)")
+			fx.decls.Raw(`(assert (forall ((a (Array Int Int)) (ao Int) (al Int)) (! (= (|str.idlen| (|str.id| a ao al)) al) :pattern ((|str.id| a ao al)))))`)
+			fx.decls.Raw(`(assert (forall ((a (Array Int Int)) (ao Int) (al Int) (i Int)) (! (=> (and (<= 0 i) (< i al)) (= (|str.idat| (|str.id| a ao al) i) (select a (+ ao i)))) :pattern ((|str.id| a ao al) (select a (+ ao i))))))`)
+			// ... and equal contents have equal ids when both strings have the
+			// same length term (the pairs that arise from copies)
+			fx.decls.Raw(`(assert (forall ((a (Array Int Int)) (ao Int) (b (Array Int Int)) (bo Int) (l Int)) (! (=> (str.eq a ao l b bo l) (= (|str.id| a ao l) (|str.id| b bo l))) :pattern ((|str.id| a ao l) (|str.id| b bo l)))))`)
+		}
 		return app("|str.id|", k.strArr(), k.strOff(), k.strLen())
 	}
 	if len(k.ts) != 1 {
